@@ -88,7 +88,7 @@ NAMES = ["vf.aa", "vf.bb", "vf.cc", "vf.dd", "vf.aux"]
 
 def instances(cls_key: str, rng: random.Random) -> Dict[str, Any]:
     """A valid instance (as dict) of the schema class."""
-    s = rng.choice(["", "x", "äöü ✓", "line\nbreak", "0"])
+    s = rng.choice(["x", "äöü ✓", "line\nbreak", "0", " padded "])
     i = rng.choice([0, 1, -1, 2**40, 7])
     return {
         "AA10": {"x": i, "y": rng.choice([None, s])},
@@ -274,7 +274,7 @@ def raw_projection(raw, km: h5lib.KeyMap, tk: h5lib.Tokens, validate=None) -> Di
                 elif key == "schemas":
                     n, v = split_ep(sub)
                     kids = sorted(o.keys())
-                    rec = {"ref": [n, v], "kids": kids, "parents": [], "jsdig": "", "jsonschema": None}
+                    rec = {"ref": [n, v], "kids": kids, "parents": [], "jsdig": ""}
                     if "compat" in o:
                         rec["parents"] = [[r["name"], list(r["version"])] for r in json.loads(o["compat"][()])]
                     if "jsonschema.json" in o:
